@@ -106,6 +106,18 @@ def _native_snapshot(o):
     return snapshot(o)
 
 
+def _class_state(g):
+    """data attributes stored on the library's classes (shared, hidden state such as cached singletons)"""
+    out = []
+    for name in ("Vector", "Point", "Line", "Plane", "Segment", "HalfLine", "ConvexPolygon", "ConvexPolyhedron", "Pyramid"):
+        cls = getattr(g, name)
+        for k, v in sorted(vars(cls).items()):
+            if k.startswith("__") or callable(v) or isinstance(v, (classmethod, staticmethod, property)):
+                continue
+            out.append((name, k, snapshot(v)))
+    return tuple(out)
+
+
 def bounded_interleavings(seed, n_hist, steps):
     from g3dvc import oracle as O
     from g3dvc import catalogue as K
@@ -146,7 +158,7 @@ def bounded_interleavings(seed, n_hist, steps):
             a, b = rng.choice(pool), rng.choice(pool)
             klass = "%s(%s,%s)" % (qn, type(a).__name__, type(b).__name__)
             snaps = [_native_snapshot(x) for x in pool]
-            glob = (CONST.FLOAT_EPS, CONST.SIG_FIGURES)
+            glob = (CONST.FLOAT_EPS, CONST.SIG_FIGURES, _class_state(g))
             try:
                 r1 = q(a, b)
                 ok1 = True
@@ -157,8 +169,8 @@ def bounded_interleavings(seed, n_hist, steps):
             after = [_native_snapshot(x) for x in pool]
             if after != snaps:
                 fail(klass, "query changed an attribute of an object", dict(query=qn, a=repr(a), b=repr(b)))
-            if (CONST.FLOAT_EPS, CONST.SIG_FIGURES) != glob:
-                fail(klass, "query changed the global tolerance", dict(query=qn))
+            if (CONST.FLOAT_EPS, CONST.SIG_FIGURES, _class_state(g)) != glob:
+                fail(klass, "query changed global state (tolerance or a class-level attribute)", dict(query=qn))
             # same query again gives the same answer (no dependence on the history)
             try:
                 r2 = q(a, b)
@@ -169,6 +181,14 @@ def bounded_interleavings(seed, n_hist, steps):
                 fail(klass, "repeating the query gave a different answer", dict(query=qn, a=repr(a), b=repr(b), first=repr(r1), second=repr(r2)))
             if len(samples) < 2 and ok1:
                 samples.append(dict(query=klass, a=repr(a)[:80], b=repr(b)[:80]))
+        # factory functions keep returning what their names say after their results were mutated / used in moved objects
+        z = g.Vector.zero()
+        g.Line(z, V(1, 2, 2)).move(V(2, -1, 2))
+        g.origin().move(V(1, 1, 1))
+        ev += 1
+        classes.add("factories")
+        if tuple(g.Vector.zero()) != (0, 0, 0) or tuple(g.origin()) != (0, 0, 0) or tuple(g.x_unit_vector()) != (1, 0, 0):
+            fail("factories", "Vector.zero() / origin() / x_unit_vector() changed after an object built from an earlier result was moved", dict(kind="factory"))
         # ownership: build composites from shared points, mutate the points, compare
         pts = [P(rng.randint(-8, 8), rng.randint(-8, 8), rng.randint(-8, 8)) for _ in range(4)]
         if len(set((p.x, p.y, p.z) for p in pts)) == 4:
